@@ -212,19 +212,25 @@ def check(model, rep, tier):
       # an INDENT token consists of whitespace only (tokenize): token-aware edit
       rep.hold('SRC-SLICE', site, {'slice': core.norm(sl), 'token_aware': gd0})
       continue
-    if hi is None and isinstance(lo, ast.BinOp) and isinstance(lo.op, ast.Sub) and \
-        all(isinstance(x, ast.Call) and core.dotted(x.func) == 'len' and
-            isinstance(x.args[0], ast.Name) for x in (lo.left, lo.right)):
-      a = lo.left.args[0].id
-      b = lo.right.args[0].id
-      da = rd.reaching(sl, a) or []
-      own = len(da) == 1 and not isinstance(da[0], tuple) and \
-          core.norm(da[0]).endswith('.group()') and 'LEADING_WHITESPACE' in \
-          core.norm(da[0]) and (', %s)' % line_var) in core.norm(da[0])
-      guard = [x for x in _guards(db.node, sl)]
-      facts.update({'a': [core.norm(x) for x in da if not isinstance(x, tuple)],
-                    'guards': guard})
-      ok = own and ('T', 'len(%s) > len(%s)' % (a, b)) in guard
+    lox = tpl.expand(db, lo, sl) if lo is not None else None
+    if hi is None and isinstance(lox, ast.BinOp) and isinstance(lox.op, ast.Sub):
+      L, R = core.norm(lox.left), core.norm(lox.right)
+      own_forms = ('len(_LEADING_WHITESPACE.match(%s).group())' % line_var,
+                   'len(re.match(_LEADING_WHITESPACE, %s).group())' % line_var)
+      own = L in own_forms and R.startswith('len(')
+      # the cut is taken only when it is positive (a negative bound would cut
+      # from the end of the line)
+      from sa import formula as _f
+      pos = False
+      for pol, t in _f.path_condition(db.node, sl):
+        tx = tpl.expand(db, t, t)
+        tt = core.norm(tx)
+        if pol == 'T' and tt in ('%s - %s > 0' % (L, R), '%s > %s' % (L, R)):
+          pos = True
+        if pol == 'F' and tt in ('%s - %s <= 0' % (L, R), '%s <= %s' % (L, R)):
+          pos = True
+      facts.update({'lower_bound': core.norm(lox), 'positive_guard': pos})
+      ok = own and pos
     rep.check(ok, 'SRC-SLICE', site,
               'characters are cut from the start of a source line by an amount '
               'that is not bounded by that line\'s own leading whitespace: code '
